@@ -832,6 +832,9 @@ class Executor(object):
                 path.heap = h.with_(fd=z3.Store(h['fd'], base.t, z3.Store(h.fdom(base.t), idx.t, True)),
                                     fv=z3.Store(h['fv'], base.t, z3.Store(h.fval(base.t), idx.t, v.t)))
                 return
+            for x_ in self.E.ext:
+                if x_.assign_subscript(self.E, self, base, idx, v, path, st):
+                    return
             raise Unsupported('subscript assignment %s[%s] = %s at line %d' % (base.ty, idx.ty, v.ty, st.lineno))
         raise Unsupported('assignment target')
 
